@@ -26,6 +26,10 @@ SHARDS = {"quick": 1, "thorough": 1}  # one shard; it runs 16 session subprocess
 BUDGET = {"quick": 100.0, "thorough": 900.0}  # ceilings (heavily loaded machine); typical use is 15-25 s / 2-4 min
 WORKERS = 24  # sessions mostly sleep (alarms, holds): more children than cores
 REQUIRE = {
+    "GROW_checked": 6,
+    "GROW_checked:nohook": 3,
+    "GROW_checked:no-alarm-pending": 3,
+    "GROW_checked:hook": 3,
     "early_redraw_fault_sessions": 80,
     "early_redraw_fault_sessions:tornado:redraw1": 3,
     "early_redraw_fault_sessions:asyncio:redraw1": 3,
@@ -174,6 +178,7 @@ TOK = {
     "paste": ("\x1b[200~xy\x1b[201~", ["begin paste", "x", "y", "end paste"]),
     "Q": ("Q", ["Q"]),
     "sh": ("S", ["S"]),
+    "bigA": ("A", ["A"]),
     "up2": ("[A", ["up"]),  # completes the ESC left pending by the "@part_esc" step  # unhandled_input('S') shells out: loop.screen.stop(); ...; loop.screen.start()
     # several keys in ONE write; the first one swaps loop.widget, the rest must follow the new topmost widget
     "nab": ("nab", ["n", "a", "b"]),
@@ -200,9 +205,13 @@ BURSTS = {"@burst2": ([[50, 12], [60, 14]], "a"), "@burst3": ([[44, 11], [52, 13
 SCRIPT_K = ["@shalarm", "a", "sh", "up", "m1", "@alarm0", "bz", "@suspend", "x", "@winch", "a", "sh", "m3", "@alarm1", "a", "Q"]
 # a partial escape sequence is pending in the screen while a callback shells out (stop / start re-hook the input)
 SCRIPT_PK = ["@shalarm", "a", "@part_esc", "@alarm0", "up2", "bz", "m1", "@alarm1", "Q"]
+# a truncated escape sequence grows during complete_wait (ESC, then "[") and stays incomplete, then silence, then the next key:
+# the pending bytes must be delivered once complete_wait has passed, not withheld until (and merged with) the next key
+SCRIPT_G = ["a", "@grow", "@hold", "bigA", "bz", "@alarm0", "@grow", "@hold", "up", "@alarm1", "Q"]
+SCRIPT_G0 = ["@noalarms", "a", "@grow", "@hold", "bigA", "bz", "m1", "@grow", "@hold", "up", "Q"]  # the same with no alarm pending
 SCRIPT_Z = ["a", "@burst2", "up", "m1", "@alarm0", "@burst3", "bz", "m3", "@alarm1", "@winch", "a", "Q"]
 COMPLETE_WAIT = 0.4  # generous, so that a slow driver thread does not let a split key time out for real
-HOLD = COMPLETE_WAIT + 0.12  # the loop is kept waiting this long after the last split's first fragment was read
+HOLD = COMPLETE_WAIT + 0.6  # the loop is kept waiting this long after the last split's first fragment was read
 SCRIPT_P = ["a", "s_up", "bz", "s_u8", "@alarm0", "s_m1", "s_f5", "@hold", "up", "@alarm1", "Q"]
 SCRIPT_A = ["a", "bz", "m1", "up", "focus", "@alarm0", "@winch", "@pipe", "@file", "paste", "p", "a", "m1", "m1out", "c", "@alarm1", "Q"]
 SCRIPT_S = ["a", "bz", "m1", "@alarm0", "@winch", "@pipe", "@file", "up", "m3", "@alarm1", "Q"]
@@ -233,7 +242,12 @@ def build_script(tokens, cfg):
             if cfg["handlers"] == "custom":
                 steps.append(["suspend", None, t])
             continue
-        if (t in SPLIT or t == "@hold") and not cfg["hook"]:
+        if t == "@noalarms":
+            continue  # not a step: the session has no alarm at all (the loop waits for input with no timeout)
+        if t == "@grow":
+            steps.append(["grow", ["\x1b", "[", 0.05], t])
+            continue
+        if (t in SPLIT or (t == "@hold" and "@grow" not in tokens)) and not cfg["hook"]:
             continue  # _run_screen_event_loop never shows an incomplete read to the filter: a split cannot be observed
         if t in SPLIT:
             steps.append(["split", [SPLIT[t][0], SPLIT[t][1]], t])
@@ -275,14 +289,14 @@ def make_spec(cfg, tokens, inject=None):
         "focus": cfg["focus"],
         "handlers": cfg["handlers"],
         "size": [40, 10],
-        "alarms": [0.09, 0.17, 0.25] if "@alarm2" in tokens else [0.09, 0.17],
-        "backstop": 4.0,
+        "alarms": [] if "@noalarms" in tokens else ([0.09, 0.17, 0.25] if "@alarm2" in tokens else [0.09, 0.17]),
+        "backstop": None if "@noalarms" in tokens else 4.0,
         "step_wait": 0.3,
         "script": build_script(tokens, cfg),
         "tokens": list(tokens),
         "inject": inject,
         "utf8": any(t in SPLIT for t in tokens),
-        "complete_wait": COMPLETE_WAIT if any(t in SPLIT or t == "@part_esc" for t in tokens) else None,
+        "complete_wait": COMPLETE_WAIT if any(t in SPLIT or t in ("@part_esc", "@grow") for t in tokens) else None,
         "always_render": bool(cfg.get("always_render")),
     }
 
@@ -326,6 +340,8 @@ def expected_keys(spec):
             out.extend(SPLIT[st[2]][2])
         elif st[0] == "burst":
             out.extend(list(BURSTS[st[2]][1]))
+        elif st[0] == "grow":
+            out.append("meta [")  # ESC [ left incomplete for longer than complete_wait is delivered as it stands
     return out
 
 
@@ -548,6 +564,20 @@ def judge(spec, res, ctx, base_rst=None):  # noqa: C901, PLR0912, PLR0915
             continue
     complete = not reached
     split_timed_out, _ = split_facts(spec, log, inj_pos if reached else len(log), ctx)
+    # a lone ESC left pending on purpose ("@part_esc", completed by a later "[A", possibly in a later run()): if the process
+    # was descheduled for longer than complete_wait in between, urwid rightly delivers the ESC on its own
+    t_part = spec.get("partial_read_t")
+    if t_part is None:
+        t_part = next((e["t"] for e in log if e["site"] == "part1_read"), None)
+    t_last = max((e["t"] for e in log if "t" in e), default=None)
+    if spec.get("run_ctx") and spec.get("partial_family"):
+        # later run() of a session that left a lone ESC pending across runs: the family exists for faults inside
+        # MainLoop.start() (EXIT / RST); how the stale ESC combines with later bytes is not judged here
+        split_timed_out = True
+        ctx.count("partial_across_runs_arrival_not_judged")
+    elif t_part is not None and t_last is not None and t_last - t_part > 0.6 * float(spec.get("complete_wait") or 0.125):
+        split_timed_out = True
+        ctx.count("partial_pending_too_long_not_judged")
     if split_timed_out:
         ctx.count("ORD_sessions_not_judged_split_timed_out")
     elif not ord_broken:
@@ -567,6 +597,22 @@ def judge(spec, res, ctx, base_rst=None):  # noqa: C901, PLR0912, PLR0915
         elif complete and (pending or stage == "need-unhandled") and not _final_exit(log):
             add("ORD", "batch-not-delivered", f"pending {pending!r} stage {stage}")
         ctx.count("ORD_sessions_checked")
+
+    # ---------------- GROW: bytes pending longer than complete_wait are delivered without waiting for another key
+    g_idx = None
+    for idx in range(inj_pos if reached else len(log)):
+        e = log[idx]
+        if e["site"] == "grown":
+            g_idx = idx
+        elif e["site"] == "held" and g_idx is not None:
+            if e["t"] - log[g_idx]["t"] >= float(spec.get("complete_wait") or 0.125) + 0.05:
+                ctx.count("GROW_checked")
+                ctx.count(f"GROW_checked:{'hook' if spec['hook'] else 'nohook'}")
+                if spec.get("backstop") is None:
+                    ctx.count("GROW_checked:no-alarm-pending")
+                if not any(x["site"] == "filter" and x["keys"] for x in log[g_idx:idx]) and not any("pending-input-withheld" in x[0] for x in v):
+                    add("ORD", "pending-input-withheld-until-next-key", f"ESC then '[' were written {e['t'] - log[g_idx]['t']:.2f} s ago (complete_wait {spec.get('complete_wait')}) and nothing else followed, but no input event has reached the filter: the bytes stay pending in the screen")
+            g_idx = None
 
     # ---------------- SIZE: after a size change the loop has settled on, input and redraws use the terminal's size
     lim = inj_pos if reached else len(log)
@@ -889,6 +935,12 @@ def plan_configs(ctx):
         for lp in ("select", "asyncio", "tornado", "trio"):
             plans.append((base_cfg(loop=lp), SCRIPT_PK, "rehook"))
         plans.append((base_cfg(hook=False), SCRIPT_Z, "few"))
+        plans.append((base_cfg(hook=False), SCRIPT_G, "min"))
+        plans.append((base_cfg(hook=False), SCRIPT_G0, "min"))
+        plans.append((base_cfg(loop="select"), SCRIPT_G0, "min"))
+        plans.append((base_cfg(hook=False, pop_ups=True, fd0=True), SCRIPT_G, "min"))
+        for lp in ("select", "asyncio", "twisted"):
+            plans.append((base_cfg(loop=lp), SCRIPT_G, "min"))
         plans.append((base_cfg(hook=False, pop_ups=True), SCRIPT_Z, "min"))
         for lp in ("select", "asyncio", "trio"):
             plans.append((base_cfg(loop=lp), SCRIPT_Z, "min"))
@@ -916,6 +968,14 @@ def plan_configs(ctx):
     plans.append((base_cfg(hook=False, handlers="custom", paste=False), SCRIPT_B, "ends"))
     plans.append((base_cfg(hook=False), SCRIPT_W, "full"))
     plans.append((base_cfg(hook=False), SCRIPT_Z, "full"))
+    plans.append((base_cfg(hook=False), SCRIPT_G, "full"))
+    plans.append((base_cfg(hook=False), SCRIPT_G0, "full"))
+    plans.append((base_cfg(hook=False, pop_ups=True), SCRIPT_G0, "ends"))
+    for lp in LOOPS:
+        plans.append((base_cfg(loop=lp), SCRIPT_G0, "first"))
+    plans.append((base_cfg(hook=False, pop_ups=True, fd0=True), SCRIPT_G, "ends"))
+    for lp in LOOPS:
+        plans.append((base_cfg(loop=lp), SCRIPT_G, "ends"))
     for lp in LOOPS:
         plans.append((base_cfg(loop=lp), SCRIPT_K, "full"))
         plans.append((base_cfg(loop=lp, handlers="custom", fd0=True), SCRIPT_K, "ends"))
@@ -1073,6 +1133,10 @@ def run_views(spec, res):
     for k, rec in enumerate(res["runs"]):
         spec_k = dict(spec, script=rec["script"], inject=rec["inject"], size=rec["size"])
         spec_k.pop("more_runs", None)
+        t_p = next((e["t"] for e in res["log"][: rec["hi"]] if e["site"] == "part1_read"), None)
+        if t_p is not None:
+            spec_k["partial_read_t"] = t_p
+        spec_k["partial_family"] = any(st_[0] == "part1" for st_ in res["runs"][0]["script"])
         if k:
             spec_k["run_ctx"] = f"|rerun-after-{prev}"
             spec_k["stty_applied"] = list((spec["more_runs"][k - 1].get("stty")) or [])
@@ -1115,6 +1179,18 @@ def shrink_and_report(ctx, spec, res, vs, known, base_rst=None):
             continue
         wit = spec
         s2 = sig.replace(" ", "_")
+        if "|ORD|" in sig and any(st_[0] == "grow" for st_ in spec.get("script", [])) and s2 not in known and s2 not in ctx.violations and not ctx.replaying:
+            # "nothing delivered complete_wait + 0.6 s after the last byte" is measured by the driver thread: a starved main
+            # thread can fake it, so the verdict needs the same signature from two more executions of the session
+            again = 0
+            for _ in range(2):
+                r2 = pty_term.run_session(spec, 30.0)
+                if r2 and "log" in r2 and any(s == sig for s, _ in judge(spec, r2, core.Ctx("C12", ctx.tier, ctx.seed, 0, 1, 1.0), base_rst)):
+                    again += 1
+            if again < 2:
+                ctx.count("GROW_unconfirmed_not_reproducible")
+                continue
+            ctx.count("GROW_confirmed_by_rerun")
         if "|RDW|" in sig and s2 not in known and s2 not in ctx.violations and not ctx.replaying:
             # the precondition of the redraw rule (">= 50 ms between the event and the alarm's due time, so the loop must
             # have waited") is the one place where a descheduled process can fake a violation: the verdict needs the
